@@ -68,8 +68,8 @@ def check(R, F, P, cfg):
         f = anchor(F, fname)
         S = Super(P, f, opaque=DO - {fname})
         tw = [n for n in S.nodes if n.ci is not None and n.ci["k"] == "call" and n.ci["npath"] == "std::thread::LocalKey::<T>::try_with"]
-        div = [n for n in S.call_nodes() if n.ci["k"] == "call" and not n.ci.get("exp") and n.ci["npath"].startswith(("std::result::Result::<T, E>::unwrap", "std::result::Result::<T, E>::expect", "std::panicking"))]
-        R.inst("R19.3", "fallback:%s" % fname, len(tw) == 1 and not div, "%s reaches the buffer through try_with (%d site) and has no unwrap/expect/explicit panic: %s" % (fname, len(tw), [d.ci["npath"] for d in div] or "ok"), where=f.span, cfg=cfg)
+        div = [n for n in S.call_nodes() if n.ci["k"] == "call" and not n.ci.get("exp") and (n.ci["npath"] in ("std::result::Result::<T, E>::unwrap", "std::result::Result::<T, E>::expect", "std::result::Result::<T, E>::unwrap_err", "std::option::Option::<T>::unwrap", "std::option::Option::<T>::expect") or n.ci["npath"].startswith("std::panicking"))]
+        R.inst("R19.3", "fallback:%s" % fname, len(tw) >= 1 and not div, "%s reaches the buffer through try_with (%d site) and has no unwrap/expect/explicit panic: %s" % (fname, len(tw), [d.ci["npath"] for d in div] or "ok"), where=f.span, cfg=cfg)
 
 
 def _result_not_unwrapped(P, F, f, bb):
@@ -115,7 +115,7 @@ def witnesses():
 
 def check_global(R, tier, seed):
     R.doc("R19.2", "compile-fail witnesses with compiling twins (rustc decides): the pointer and context types are !Send and !Sync; Context is not constructible; collector state is not nameable")
-    d, err = witness.ensure_libs()
+    d, err = witness.ensure_libs(("std", "auto-collect", "finalization", "weak-ptrs", "cleaners"))   # no derive: no proc-macro build needed
     if d is None:
         R.inst("R19.2", "witness-build", False, "building the rlib for the witnesses failed:\n" + (err or ""), nontrivial=False)
         return
